@@ -341,6 +341,11 @@ impl<K: KeyT, V: ValT> MapWorld<K, V> {
                     }
                 }
                 let tplan = self.slots[ti].plan.clone();
+                let room = {
+                    let m = self.map(si);
+                    m.capacity() - m.len()
+                };
+                let n_src = pairs.len();
                 let m = self.slots[si].map.as_mut().unwrap();
                 let out = if from_vec {
                     let items: Vec<(K, V)> = pairs.iter().map(|&(k, v)| (K::make(k), V::make(v))).collect();
@@ -355,6 +360,10 @@ impl<K: KeyT, V: ValT> MapWorld<K, V> {
                 finish_schedule(&mut self.ctx);
                 if !matches!(out, Out::Ok(())) {
                     vio!(self, class, "par_extend panicked");
+                }
+                // like extend: a source that fits into the spare room is taken in without asking the allocator
+                if n_src <= room && self.ctx.last_alloc_calls > 0 && si != ti {
+                    vio!(self, "cap/alloc-with-room", "par_extend of {n_src} pairs into a map with capacity()-len()={room} called the allocator");
                 }
                 let mut want: Vec<(u32, u32)> = self.slots[si].model.e.iter().map(|e| (e.kid, e.v)).collect();
                 for (k, v) in expect_src {
